@@ -236,7 +236,7 @@ def levels(tier: str) -> list[dict]:
 
 
 def run(tier: str) -> dict:
-    res = common.run_levels(levels(tier))
+    res = common.run_levels(common.tiered(levels, tier))
     try:
         viol, stats = histories(tier)
     except RuntimeError as e:
